@@ -3,6 +3,7 @@ import itertools
 import json
 import os
 import random
+import re
 import subprocess
 import tempfile
 from concurrent.futures import ThreadPoolExecutor
@@ -335,6 +336,10 @@ def run(tier, seed):
     for j in obs_fail:
         if 'F-C05-nested-initially' in findings and j in T_init and j not in mobs_fail:
             rep.known_finding('F-C05-nested-initially', findings['F-C05-nested-initially']['summary'])
+        elif ('F-C05-bare-finally' in findings and int(ometa[j]['i']) in T_bare_c and 'finally ' in ometa[j]['text'].split('\n')[-1]
+              and re.search(r'(?<![A-Za-z0-9_&])__[a-z]', str(ometa[j]['impl']))):
+            # trigger: the condition is a bare 'finally' entity (no temporal formula) and the rule body holds the literal '__p(..)'
+            rep.known_finding('F-C05-bare-finally', findings['F-C05-bare-finally']['summary'])
         else:
             new.append(j)
     for j in new[:3]:
